@@ -1,9 +1,11 @@
 #!/bin/bash
 # run the property checks against every behaviour-preserving refactoring in seeded/harmless: expect exit 0
 cd /verif
-declare -A props=( [r1]="C18 C14 C03" [r2]="C01 C11 C16 C03" [r3]="C01 C11 C16 C03" [r4]="C19 C06 C20 C03" )
+declare -A props=( [r1]="C18 C14 C03" [r2]="C01 C11 C16 C03" [r3]="C01 C11 C16 C03" [r4]="C19 C06 C20 C03" [r5]="C18 C14 C03" [r6]="C18 C19 C03" [r7]="C01 C16 C11 C03" )
+only="${1:-}"
 for f in seeded/harmless/*.diff; do
   b=$(basename $f .diff); a=${b%%_*}
+  if [ -n "$only" ] && [[ ! "$b" =~ $only ]]; then continue; fi
   cd /repo; if ! git apply --check /verif/$f 2>/dev/null; then echo "$b: PATCH-DOES-NOT-APPLY"; cd /verif; continue; fi
   git apply /verif/$f; cd /verif
   res=""
